@@ -242,6 +242,8 @@ func checkC14(w *World, r *Report) {
 	r.Rule("R14.6", "a wrapper is marked closed only by its Close (else later closes are skipped and the descriptor leaks)", 4)
 	r.Rule("R14.9", "every Lock in the client's upstream and listener code and in the server package is released on every path out of the function (a failed reconnect that returns with the upstream mutex held parks every later logical connection for good)", 2)
 	ruleLockPairing(w, r, "R14.9", pkgFuncs(w, "/internal/client/upstream", "/internal/client/listener", "/internal/server"))
+	r.Rule("R14.11", "closing a DNS connection closes its in-queue: a Read blocked on it (the multiplexer's receive loop) is released, not left behind per ended session", 2)
+	c14CloseWakesBlockedReaders(w, r)
 	r.Rule("R14.10", "Close of a connection object closes the carrier it owns on every returning path, unless the object was found closed already (a failed goodbye must not keep the socket)", 3)
 	c14CloseReleasesCarrierOnEveryPath(w, r)
 	r.Rule("R14.8", "AcceptConnection closes the carrier on every failing return, unless the error says the carrier is closed already (a peer that left is not a closed carrier)", 1)
